@@ -271,7 +271,7 @@ int main() {
       uint64_t seed = strtoull(t[2].c_str(), NULL, 10), count = strtoull(t[3].c_str(), NULL, 10);
       uint64_t ub = strtoull(t[4].c_str(), NULL, 10), sb = strtoull(t[5].c_str(), NULL, 10);
       uint64_t fail_at = t.size() == 8 ? strtoull(t[6].c_str(), NULL, 10) : 0;
-      uint64_t invalid = t.size() == 8 && t[7] == "max" ? ~0ULL : 0;
+      uint64_t invalid = t.size() == 8 ? (t[7] == "max" ? ~0ULL : strtoull(t[7].c_str(), NULL, 10)) : 0;
       if (t[1] == "12") RunSet<Entry12>(seed, count, ub, sb, fail_at, invalid);
       else RunSet<Entry16>(seed, count, ub, sb, fail_at, invalid);
     } else {
